@@ -79,7 +79,13 @@ func (h *harness) stageStrings() {
 		s := h.hostileString()
 		// targets
 		var tgt fxtypes.FxTarget
-		o := guard(func() error { tgt = fxtypes.ParseFxTarget(s); _ = tgt.GetTarget(); _ = tgt.String(); _ = tgt.IBCValidate(); return nil })
+		o := guard(func() error {
+			tgt = fxtypes.ParseFxTarget(s)
+			_ = tgt.GetTarget()
+			_ = tgt.String()
+			_ = tgt.IBCValidate()
+			return nil
+		})
 		h.strCase("ParseFxTarget", s, o, true)
 		if o.Class == "ok" && tgt.IsIBC() {
 			// send_to_fx.go: after ParseFxTarget(claim.TargetIbc, true) the receiver is rendered with the attacker's prefix
